@@ -442,6 +442,26 @@ func runEngine(query string, doc *gedcom.Document) (interface{}, error) {
 	return e.Evaluate([]*gedcom.Document{doc})
 }
 
+// companion: see the clause "a result that was returned stays what it was" in check.
+func companion(prog program, d *gedcom.Document) (program, bool) {
+	for i := len(prog.Main) - 1; i >= 1; i-- {
+		prefix := program{Vars: prog.Vars, Main: prog.Main[:i]}
+		v, err := runEngine(prefix.String(), d)
+		if err != nil || v == nil {
+			continue
+		}
+		rv := reflect.ValueOf(v)
+		if rv.Kind() != reflect.Slice || rv.Len() < 3 || rv.Type().Elem().Kind() == reflect.Slice {
+			continue
+		}
+		first := append(append(pipe{}, prog.Main[:i]...), &expr{Kind: "first", N: 1})
+		last := append(append(pipe{}, prog.Main[:i]...), &expr{Kind: "last", N: 1})
+		main := append(pipe{{Kind: "combine", Pipes: []pipe{first, last}}}, prog.Main[i:]...)
+		return program{Vars: prog.Vars, Main: main}, true
+	}
+	return program{}, false
+}
+
 type queryCase struct {
 	Doc     *gen.GraphBP `json:"doc"`
 	Program program      `json:"program"`
@@ -594,6 +614,26 @@ func check(c queryCase) (fl *harness.Failure, nontrivial bool) {
 		gotP, _, _ := normalise(rp)
 		if errp != nil || !sameJSON(gotP, wantP) {
 			return harness.Failf("query-changes-document", "after evaluating %q on a document, %q gives %v on it and %v on a fresh copy (%v)", query, probe, gotP, wantP, errp), false
+		}
+	}
+	// a result that was returned stays what it was while other queries are evaluated on the same
+	// document: the companion query is the same program with one list of the main pipeline (the
+	// last one with >= 3 elements) replaced by its first and its last element only, so it walks
+	// lists that start with the same nodes and continue differently
+	if comp, ok := companion(c.Program, d); ok {
+		// (the result that is held is that of a late evaluation: by now every lazily filled cache
+		// of the library that this query reads is filled, so the result is built the way results
+		// are built in a long-running process)
+		held, _ := e.Evaluate([]*gedcom.Document{d})
+		_, s1, _ := normalise(held)
+		_, _ = runEngine(comp.String(), d)
+		if _, again, _ := normalise(held); again != s1 {
+			return harness.Failf("returned-result-changes", "the result of %q was\n%s\nand reads\n%s\nafter %q was evaluated on the same document\nfile:\n%s", query, trunc(s1), trunc(again), comp.String(), c.Doc.Text()), false
+		}
+		if r3, err3 := e.Evaluate([]*gedcom.Document{d}); err3 == nil {
+			if _, s3, _ := normalise(r3); s3 != gs {
+				return harness.Failf("nondeterministic", "query %q gives %s and, after %q was evaluated on the same document, %s", query, trunc(gs), comp.String(), trunc(s3)), false
+			}
 		}
 	}
 	// several callers at once on a document whose caches are cold: each evaluation is "the
@@ -974,8 +1014,16 @@ func genProgram(rt *rapid.T) program {
 			st = sa
 		}
 	}
-	rest, _ := genPipe(rt, st, 5, nil)
+	rest, end := genPipe(rt, st, 5, nil)
 	prog.Main = append(prog.Main, rest...)
+	// (one program in six whose pipeline ends in a plain list of records or nodes goes on with a
+	// short prefix or suffix of it and the lines below them that have a given tag path)
+	if end.isList && !end.nested && !end.nullable && (end.t == tIndi || end.t == tFam || end.t == tNode) && rapid.IntRange(0, 5).Draw(rt, "endWithTagPath") == 3 {
+		if k := rapid.IntRange(0, 4).Draw(rt, "shortList"); k >= 2 {
+			prog.Main = append(prog.Main, &expr{Kind: rapid.SampledFrom([]string{"first", "last"}).Draw(rt, "shortKind"), N: k})
+		}
+		prog.Main = append(prog.Main, &expr{Kind: "tagpath", Tags: rapid.SampledFrom(tagPaths).Draw(rt, "endTags")})
+	}
 	if len(prog.Main) == 0 {
 		prog.Main = pipe{{Kind: "acc", Name: "Individuals", In: tDoc}}
 	}
@@ -988,10 +1036,10 @@ func reflectSame(a, b pipe) bool { return a.String() == b.String() }
 
 func TestCheckQueries(t *testing.T) {
 	s := harness.NewSub("typed-programs-vs-reference",
-		"well-typed programs from the documented grammar (0..2 variable definitions, main pipeline of up to 6 stages: accessor chains over Document/Individual/Family/Husband/Wife/Child/Name/Date/Date value/Sex/plain nodes - nil-unsafe accessors are never applied to nullable values -, First/Last with arguments 0..7, Length, Only with a comparison, NodesWithTagPath, objects, Combine, all six operators over accessor and constant operands incl. '10' vs '9', '1.230', ' JOHN ') on random family graphs; engine result vs reference interpreter as normalised JSON, determinism, a quarter of the cases again after 1..2 edits of the queried document through the public API (vs the same text decoded from nothing), and metamorphic relations (variable inlining, Length, Combine(E,E), First/Last length and partition for k in {0,1,n-1,n,n+1}); non-trivial = non-empty list or object result and a main pipeline of >= 3 stages")
+		"well-typed programs from the documented grammar (0..2 variable definitions, main pipeline of up to 6 stages: accessor chains over Document/Individual/Family/Husband/Wife/Child/Name/Date/Date value/Sex/plain nodes - nil-unsafe accessors are never applied to nullable values -, First/Last with arguments 0..7, Length, Only with a comparison, NodesWithTagPath, objects, Combine, all six operators over accessor and constant operands incl. '10' vs '9', '1.230', ' JOHN ') on random family graphs; engine result vs reference interpreter as normalised JSON, determinism, a returned result stays what it was while a companion query (the same program over the first and last element of one of its lists) is evaluated, a quarter of the cases again after 1..2 edits of the queried document through the public API (vs the same text decoded from nothing), and metamorphic relations (variable inlining, Length, Combine(E,E), First/Last length and partition for k in {0,1,n-1,n,n+1}); non-trivial = non-empty list or object result and a main pipeline of >= 3 stages")
 	s.Rapid(t, harness.Share(harness.Pick(60000, 1200000)), 160, func(rt *rapid.T) {
 		c := queryCase{
-			Doc:     gen.Graph(gen.GraphOpts{MaxPeople: 6, MaxFamilies: 3, WildDates: true, UIDs: true, Big: 40, BigLo: 25, BigHi: 120}).Draw(rt, "doc"),
+			Doc:     gen.Graph(gen.GraphOpts{MaxPeople: 6, MaxFamilies: 3, WildDates: true, UIDs: true, Big: 60, BigLo: 25, BigHi: 300}).Draw(rt, "doc"),
 			Program: genProgram(rt),
 		}
 		if rapid.IntRange(0, 3).Draw(rt, "edited") == 2 {
@@ -1008,8 +1056,11 @@ func TestCheckQueries(t *testing.T) {
 		if len(c.Program.Vars) > 0 {
 			cls = append(cls, "has:variable-definition")
 		}
+		if c.Doc.IsBig() {
+			cls = append(cls, "big:>=20-people")
+		}
 		s.Eval(harness.JSON(c), nt, dedupe(cls)...)
-		if nt {
+		if nt && !c.Doc.IsBig() {
 			s.MaybeSample(map[string]interface{}{"query": c.Program.String(), "case": c})
 		}
 		if fl != nil && s.Report(c, fl) {
